@@ -351,6 +351,41 @@ def parseSharedFormula (dCol dRow : Int) (toks : List Token) : Str :=
     if t.ty = .operand ∧ t.sub = .range then efpRender { t with tv := shiftCell dCol dRow t.tv }
     else efpRender t)).flatten
 
+/-! #### data-validation formulas: stored XML-escaped, rewritten unescaped (`adjustDataValidations`) -/
+
+/-- `formulaEscaper.Replace` (`&`, `<`, `>`) -/
+def escapeXML : Str → Str
+  | [] => []
+  | c :: cs =>
+    if c = '&' then ['&', 'a', 'm', 'p', ';'] ++ escapeXML cs
+    else if c = '<' then ['&', 'l', 't', ';'] ++ escapeXML cs
+    else if c = '>' then ['&', 'g', 't', ';'] ++ escapeXML cs
+    else c :: escapeXML cs
+
+/-- `formulaUnescaper.Replace` (`&amp;`, `&lt;`, `&gt;`; a generic `strings.Replacer`: at each
+position the first matching pattern, otherwise the byte is copied) -/
+def unescapeXML : Str → Str
+  | [] => []
+  | '&' :: 'a' :: 'm' :: 'p' :: ';' :: rest => '&' :: unescapeXML rest
+  | '&' :: 'l' :: 't' :: ';' :: rest => '<' :: unescapeXML rest
+  | '&' :: 'g' :: 't' :: ';' :: rest => '>' :: unescapeXML rest
+  | c :: cs => c :: unescapeXML cs
+
+def sQuot : Str := ['&', 'q', 'u', 'o', 't', ';']
+
+/-- `(*xlsxInnerXML).isFormula`: not a quoted literal list (`&quot;…&quot;`) -/
+def isFormulaDV (content : Str) : Bool :=
+  !(sQuot.isPrefixOf content && sQuot.isSuffixOf content)
+
+/-- one formula of a data validation in `adjustDataValidations`: `toks` are efp's tokens of the
+unescaped content. `none` = the rewrite failed (the whole adjustment is aborted with that error). -/
+def adjustDV (env : Env) (content : Str) (toks : List Token) : Option Str :=
+  if isFormulaDV content then
+    match adjustRef { env with formula := unescapeXML content } toks with
+    | (val, none) => some (escapeXML val)
+    | (_, some _) => none
+  else some content
+
 end Impl
 
 /-- the indices `a, a+1, …, b` -/
